@@ -91,6 +91,9 @@ class StochasticSolver(ABC):
     def set_failed_epoch(self):
         """Set internal state on failed epoch."""
 
+    def reset_state(self):  # noqa: B027
+        """Forget everything learned in an earlier solve."""
+
     def solve(  # noqa: PLR0913
         self,
         initial_model: ttb.ktensor,
@@ -136,6 +139,7 @@ class StochasticSolver(ABC):
         # Setup loop variables
         model = initial_model.copy()
         self._nfails = 0
+        self.reset_state()
 
         best_model = model.copy()
         f_est_prev = f_est
@@ -319,6 +323,10 @@ class Adam(StochasticSolver):
         self._m_prev: List[np.ndarray] = []
         self._v: List[np.ndarray] = []
         self._v_prev: List[np.ndarray] = []
+
+    def reset_state(self):  # noqa: D102
+        self._total_iterations = 0
+        self._m, self._m_prev, self._v, self._v_prev = [], [], [], []
 
     def set_failed_epoch(  # noqa: D102
         self,
